@@ -368,7 +368,68 @@ def op_binary_scalar(rng, chinfo, dtype):
     return c
 
 
-OPS = [op_tensordot, op_outer, op_inner, op_trace, op_transpose, op_conj, op_lincomb, op_combine_split, op_take_slice,
+def op_chain(rng, chinfo, dtype):
+    """two-step programs: the result of one operation is an operand of the next one.  Stale bookkeeping of an intermediate
+    (block order flags, leg flags) does not show in its own dense form, only in what is computed from it."""
+    import tenpy.linalg.np_conserved as npc
+    if np.issubdtype(np.dtype(dtype), np.integer):
+        return None
+    first = int(rng.integers(-2, 6))
+    if first <= 0:
+        # outer of operands whose blocks are stored in different orders (sorted x shuffled, shuffled x sorted, any x any)
+        ra, rb = int(rng.integers(1, 3)), int(rng.integers(1, 3))
+        st = [('sorted', 'shuffled'), ('shuffled', 'sorted'), (None, None)][first + 2]
+        a = gen.random_array(rng, _legs(rng, chinfo, ra, max_size=2), dtype, labels=_labels(ra, 'a'), storage=st[0])
+        b = gen.random_array(rng, _legs(rng, chinfo, rb, max_size=2), dtype, labels=_labels(rb, 'b'), storage=st[1])
+        t, n1, ops = npc.outer(a, b), 'outer', [a, b]
+    elif first == 1:
+        rk = int(rng.integers(2, 4))
+        a = gen.random_array(rng, _legs(rng, chinfo, rk), dtype, labels=_labels(rk))
+        t, n1, ops = a.transpose([int(x) for x in rng.permutation(rk)]), 'transpose', [a]
+    elif first == 2:
+        rk = int(rng.integers(3, 5))
+        a = gen.random_array(rng, _legs(rng, chinfo, rk, max_size=2), dtype, labels=_labels(rk))
+        grp = [int(x) for x in rng.permutation(rk)[:2]]
+        t, n1, ops = a.combine_legs([grp]).split_legs(), 'combine+split', [a]
+    elif first == 3:
+        rk = int(rng.integers(1, 3))
+        legs = _legs(rng, chinfo, rk)
+        ax = int(rng.integers(0, rk))
+        a = gen.random_array(rng, legs, dtype, labels=_labels(rk))
+        legs2 = list(legs)
+        legs2[ax] = gen.random_leg(rng, chinfo, qconj=legs[ax].qconj)
+        b = gen.random_array(rng, legs2, dtype, qtotal=a.qtotal, labels=_labels(rk))
+        t, n1, ops = npc.concatenate([a, b], axis=ax), 'concatenate', [a, b]
+    elif first == 4:
+        rk = int(rng.integers(2, 4))
+        a = gen.random_array(rng, _legs(rng, chinfo, rk), dtype, labels=_labels(rk))
+        ax = int(rng.integers(0, rk))
+        t, n1, ops = a.take_slice(int(rng.integers(0, a.shape[ax])), ax), 'take_slice', [a]
+    else:
+        rk = int(rng.integers(1, 4))
+        a = gen.random_array(rng, _legs(rng, chinfo, rk), dtype, labels=_labels(rk))
+        t, n1, ops = a.conj().iconj() if rng.random() < 0.5 else (a * 2.0), 'conj.iconj|scale', [a]
+    if t.rank == 0 or not isinstance(t, npc.Array):
+        return None
+    td = t.to_ndarray().copy()
+    u = gen.random_array(rng, list(t.legs), dtype, qtotal=t.qtotal, labels=list(t.get_leg_labels()))
+    ud = u.to_ndarray()
+    second = int(rng.integers(0, 4))
+    if second == 0:
+        r, exp, n2 = t + u, td + ud, 'add'
+    elif second == 1:
+        r, exp, n2 = u - t, ud - td, 'rsub'
+    elif second == 2:
+        r, exp, n2 = np.array(npc.inner(u, t, axes='range', do_conj=True)), np.array(np.vdot(ud, td)), 'inner'
+    else:
+        axes = list(range(t.rank))
+        r, exp, n2 = np.array(npc.tensordot(t, u.conj(), axes=[axes, axes])), np.array(np.tensordot(td, ud.conj(), axes=[axes, axes])), 'tensordot(full)'
+    c = Case(f'chain[{n1} -> {n2}]', ops + [u], r, exp, list(t.get_leg_labels()) if isinstance(r, npc.Array) else None,
+             t.qtotal.copy() if isinstance(r, npc.Array) else None)
+    return c
+
+
+OPS = [op_chain, op_tensordot, op_outer, op_inner, op_trace, op_transpose, op_conj, op_lincomb, op_combine_split, op_take_slice,
        op_getitem, op_getitem_oob, op_setitem, op_slice_getitem, op_setitem_slices, op_concatenate, op_scale_axis, op_permute,
        op_sort_legcharge, op_squeeze_addleg, op_norm, op_binary_scalar]
 
